@@ -125,6 +125,7 @@ pub fn run(args: &Args) -> Value {
     let mut distinct = std::collections::HashSet::new();
     let mut hist = std::collections::BTreeMap::new();
     let mut total_mut = 0usize;
+    let mut n_inst = 0usize;
     let mut n_l1 = 0usize;
     for si in 0..n_seq {
         let nvars = 1 + rng.below(5) as usize;
@@ -306,13 +307,7 @@ pub fn run(args: &Args) -> Value {
             }
             distinct.insert(format!("{:?}", s.slots));
             coq.push(snap_coq(nvars, &s));
-            // the per-slot decisions of consecutive mutate_p calls, for the linked-structure model (Model/FastOps.v)
-            if matches!(kind, 0 | 1 | 2 | 5 | 8) {
-                let dl = declog.into_inner();
-                if !dl.is_empty() && dl.windows(2).all(|w| w[1].0 == w[0].0 + 1) {
-                    let a = dl[0].0;
-                    let decs = cq::list(&dl, |(_, d)| cq::opt(d, |x| cq::opt(x, |o| o.coq())));
-                    let fops = format!("(mkFops {} {}%nat {} {} {})",
+            let fops_coq = |s: &Snap| format!("(mkFops {} {}%nat {} {} {})",
                         cq::list(&s.slots.iter().zip(s.links.iter()).collect::<Vec<_>>(), |(o, l)| match (o, l) {
                             (Some(o), Some(l)) => format!("(Some (mkNode {} {} {} {} {}))", o.coq(), cq::opt(&l.prev_p, |x| format!("{}%nat", x)),
                                 cq::opt(&l.next_p, |x| format!("{}%nat", x)), cq::list(&l.prev_v, pr), cq::list(&l.next_v, pr)),
@@ -321,6 +316,20 @@ pub fn run(args: &Args) -> Value {
                         s.n, cq::opt(&s.p_ends, |(a, b)| format!("({}%nat, {}%nat)", a, b)),
                         cq::list(&s.var_ends, |e| cq::opt(e, |((a, b), (c, d))| format!("(({}%nat, {}%nat), ({}%nat, {}%nat))", a, b, c, d))),
                         cq::opt(&s.counters, |c| cq::nats(c)));
+            // new_from_ops: the transcribed clear_and_install_ops must rebuild exactly this structure
+            if kind == 7 && !before.iter().all(|o| o.is_none()) {
+                let pos = cq::list(&before.iter().enumerate().filter_map(|(p, o)| o.as_ref().map(|o| (p, o.clone()))).collect::<Vec<_>>(),
+                    |(p, o)| format!("({}%nat, {})", p, o.coq()));
+                coq.push(format!("C11.Inst {}%nat {} {}", nvars, pos, fops_coq(&s)));
+                n_inst += 1;
+            }
+            // the per-slot decisions of consecutive mutate_p calls, for the linked-structure model (Model/FastOps.v)
+            if matches!(kind, 0 | 1 | 2 | 5 | 8) {
+                let dl = declog.into_inner();
+                if !dl.is_empty() && dl.windows(2).all(|w| w[1].0 == w[0].0 + 1) {
+                    let a = dl[0].0;
+                    let decs = cq::list(&dl, |(_, d)| cq::opt(d, |x| cq::opt(x, |o| o.coq())));
+                    let fops = fops_coq(&s);
                     coq.push(format!("C11.Mut {}%nat {} {} {}%nat {} {}", nvars, cq::opt(&nb_now, |x| format!("{}%nat", x)), slots_coq(&before), a, decs, fops));
                     n_l1 += 1;
                 }
@@ -332,7 +341,7 @@ pub fn run(args: &Args) -> Value {
     }
     oracle_failures.truncate(40);
     let files = crate::write_shards(&args.out, "C11", "C11", &coq, if args.thorough { 800 } else { 250 });
-    json!({"files": files, "evaluations": coq.len(), "distinct_nontrivial": distinct.len(), "mutations": total_mut, "mutate_p_sweeps_replayed_by_linked_model": n_l1, "mutation_kinds": hist,
+    json!({"files": files, "evaluations": coq.len(), "distinct_nontrivial": distinct.len(), "mutations": total_mut, "mutate_p_sweeps_replayed_by_linked_model": n_l1, "new_from_ops_replayed_by_linked_model": n_inst, "mutation_kinds": hist,
         "oracle_failures": oracle_failures, "samples": samples,
         "rule": "random sequences of mutate_ps / mutate_subsection (sub-ranges) / mutate_ops / mutate_subsection_ops with sub-variable cursors / mutate_p with prepared and threaded cursors / set_cutoff / new_from_ops on 1-5 variables, up to 20 slots, ops of 1-3 variables, insert / remove / same-variable replace / different-variable replace / different bond; after every mutation the serde snapshot of all links, counts, ends and counters is compared with values derived by scanning the slots"})
 }
